@@ -962,7 +962,7 @@ func genAtlas(t *rapid.T) atlasCase {
 	c := atlasCase{API: pick(t, []string{"auto", "pack", "pack"}, "api"), QSeed: rapid.Uint64().Draw(t, "qseed"), NQ: gen.Int(t, 5, 40, "nq")}
 	c.Mesh = meshGen(t, c.API == "pack" && gen.Int(t, 0, 4, "thin?") == 0)
 	if c.API == "auto" {
-		c.Resolution = 1 << uint(gen.Int(t, 6, 10, "log2res"))
+		c.Resolution = 1 << uint(gen.Int(t, 4, 10, "log2res"))
 		return c
 	}
 	if gen.Int(t, 0, 2, "limit") > 0 {
@@ -971,6 +971,15 @@ func genAtlas(t *rapid.T) atlasCase {
 	x0, y0 := gen.F(t, -3, 3, "x0"), gen.F(t, -3, 3, "y0")
 	c.Rect = [4]float64{x0, y0, x0 + gen.LogF(t, 0.1, 10, "w"), y0 + gen.LogF(t, 0.1, 10, "h")}
 	c.BorderFrac = gen.F(t, 0.01, 0.9, "border")
+	if gen.Int(t, 0, 2, "binary") == 0 {
+		// binary layouts, as BuildAutomaticUVMap makes them: a rectangle with power-of-two sides at a multiple of
+		// them, and a border that is an exact binary fraction of the side, so that the cells of some level of the
+		// quad tree are exactly two borders wide (no room) and those of the level above exactly four
+		w, h := math.Ldexp(1, gen.Int(t, -3, 3, "log2w")), math.Ldexp(1, gen.Int(t, -3, 3, "log2h"))
+		x0, y0 = w*float64(gen.Int(t, -3, 3, "kx")), h*float64(gen.Int(t, -3, 3, "ky"))
+		c.Rect = [4]float64{x0, y0, x0 + w, y0 + h}
+		c.BorderFrac = pick(t, []float64{1, 0.5, 0.25}, "binaryborder")
+	}
 	c.PNorm = pick(t, []float64{2, 4, 1.5, 3}, "p")
 	return c
 }
